@@ -3,6 +3,7 @@ mod c01;
 mod browse;
 mod c02;
 mod c03;
+mod c04;
 mod c05;
 mod c06;
 mod c07;
@@ -59,6 +60,7 @@ fn main() {
         "C01" => c01::check(tier),
         "C02" => c02::check(tier),
         "C03" => c03::check(tier),
+        "C04" => c04::check(tier),
         "C05" => c05::check(tier),
         "C06" => c06::check(tier),
         "C07" => c07::check(tier),
